@@ -293,6 +293,18 @@ def rand_message(rng, cfg, codec, with_pds=None, bits=None, nbits=None):
     return m
 
 
+def rand_message_fit(rng, cfg, codec, limit=5900, **kw):
+    """a well-formed message whose encoding fits one VBS record (MAX_VBS_RECORD_LENGTH)"""
+    for _ in range(50):
+        m = rand_message(rng, cfg, codec, **kw)
+        try:
+            if len(ref_wire(m, cfg, codec, False)) <= limit:
+                return m
+        except (Refused, UnicodeEncodeError):
+            pass
+    return {'MTI': '1240', 'DE2': '4444555566667777'}
+
+
 def greedy_chunks(sizes, cap=999):
     """number of carriers an order-preserving greedy packing of sub-elements of these sizes needs"""
     n, cur = 0, 0
